@@ -27,7 +27,15 @@ def _cmp(op, a, b):
     return {"Eq": a == b, "Ne": a != b, "Lt": a < b, "Le": a <= b, "Gt": a > b, "Ge": a >= b}[op]
 
 
-def evaluate(fn, env, start=0, discr=None, max_steps=500):
+class _Top:
+    def __repr__(self):
+        return "TOP"
+
+
+TOP = _Top()
+
+
+def evaluate(fn, env, start=0, discr=None, max_steps=500, stop_at=None, want=None, lenient=False):
     """env: {local: value}; discr: {local: variant_value} for enum-typed locals whose discriminant is read.
     Returns the value of _0 at return."""
     env = dict(env)
@@ -56,13 +64,47 @@ def evaluate(fn, env, start=0, discr=None, max_steps=500):
 
     while steps < max_steps:
         steps += 1
+        if stop_at is not None and bb in stop_at and steps > 1:
+            return env.get(want) if want is not None else env
         bl = fn.blocks[bb]
         for s in bl["s"]:
             dst, rv = s[0], s[1]
             if "|" in dst:
+                if lenient:
+                    continue
                 raise Undecided(f"store to {dst}")
             d = int(dst)
             k = rv[0]
+            if lenient:
+                try:
+                    _probe = None
+                    if k == "use":
+                        _probe = val(rv[1])
+                    elif k == "bin":
+                        _probe = (val(rv[2]), val(rv[3]))
+                    elif k == "un":
+                        _probe = val(rv[2])
+                    if _probe is TOP or (isinstance(_probe, tuple) and TOP in _probe):
+                        env[d] = TOP
+                        continue
+                except Undecided:
+                    env[d] = TOP
+                    continue
+                if k not in ("use", "bin", "un", "discr", "ref"):
+                    env[d] = TOP
+                    continue
+                if k == "ref":
+                    try:
+                        pl_ = rv[2]
+                        while pl_.endswith("|*"):
+                            pl_ = pl_[:-2]
+                        env[d] = val("c:" + pl_) if "|" not in pl_ else TOP
+                    except Undecided:
+                        env[d] = TOP
+                    continue
+                if k == "discr" and place_local(rv[1]) not in discr:
+                    env[d] = TOP
+                    continue
             if k == "use":
                 env[d] = val(rv[1])
             elif k == "ref":
@@ -99,6 +141,8 @@ def evaluate(fn, env, start=0, discr=None, max_steps=500):
             bb = t[1]
         elif t[0] == "switch":
             v = val(t[1])
+            if v is TOP:
+                raise Undecided("branch on a value outside the abstract domain")
             if isinstance(v, bool):
                 v = 1 if v else 0
             nxt = t[3]
@@ -113,6 +157,9 @@ def evaluate(fn, env, start=0, discr=None, max_steps=500):
             m = {"lt": "Lt", "le": "Le", "gt": "Gt", "ge": "Ge", "eq": "Eq", "ne": "Ne"}
             if nm in m and len(t[2]) == 2 and "|" not in t[3]:
                 env[int(t[3])] = _cmp(m[nm], val(t[2][0]), val(t[2][1]))
+                bb = t[4]
+            elif lenient and t[4] is not None and "|" not in t[3]:
+                env[int(t[3])] = TOP
                 bb = t[4]
             else:
                 raise Undecided(f"call {t[1].get('fn')}")
